@@ -173,6 +173,7 @@ type access struct {
 	g      int
 	locks  []heldLock
 	atomic bool
+	isMap  bool
 	where  string
 }
 
@@ -193,12 +194,23 @@ func recordAccess(addr *value, write bool, atomic bool) {
 }
 
 var raceScope map[*value]bool
+var raceMaps map[*hashmap]bool
+
+// recordMapAccess: a map is one location (Go maps are not safe for concurrent use when one side writes).
+func recordMapAccess(m *hashmap, write bool) {
+	if !raceOn || sch == nil || sch.cur == sch.main || raceMaps == nil || !raceMaps[m] {
+		return
+	}
+	g := sch.cur
+	accesses = append(accesses, access{addr: &m.cell, write: write, g: g.id, locks: append([]heldLock{}, g.held...), isMap: true})
+}
 
 // raceBegin: accesses of child goroutines to cells reachable from package-level variables of the packages under
 // test are recorded with the locks held.
 func raceBegin(i *interpreter) {
 	raceScope = map[*value]bool{}
 	maps := map[*hashmap]bool{}
+	raceMaps = maps
 	for g, cell := range i.globals {
 		if g.Pkg == nil || !strings.HasPrefix(g.Pkg.Pkg.Path(), "github.com/ichiban/prolog") {
 			continue
@@ -236,6 +248,9 @@ func raceEnd() string {
 				a, b := accesses[idxs[x]], accesses[idxs[y]]
 				if a.g == b.g || (!a.write && !b.write) || (a.atomic && b.atomic) {
 					continue
+				}
+				if !commonLock(a, b) && a.isMap {
+					return fmt.Sprintf("goroutines g%d and g%d use the same map reachable from a package-level variable (one writes it) with no common lock", a.g, b.g)
 				}
 				if !commonLock(a, b) {
 					return fmt.Sprintf("goroutines g%d and g%d access the same package-level cell (one writes) with no common lock; current value %s", a.g, b.g, toString(*a.addr))
